@@ -470,6 +470,8 @@ static void ph_disk(void *u) {
         for (int k = 0; k <= g_kmax; k++)
             for (int depth = 0; depth <= g_diskdepth && spec_res(g_par.v[i]) + depth <= 15; depth++)
                 for (int o = 0; o < 4; o++, idx++) {
+                    // keep a set below ~50 000 cells: (3k(k+1)+1) * 7^depth
+                    if ((3.0 * k * (k + 1) + 1) * spec_ipow7(depth) > 50000) continue;
                     if (!mc_mine(idx)) continue;
                     if (mc_expired()) return;
                     MC_RUN(OP_DISK, H(g_par.v[i]), I(k), I(depth), I(o));
@@ -523,13 +525,13 @@ int main(int argc, char **argv) {
     for (int r = 1; r <= 13; r++) {
         U64Vec f = {0};
         dom_fine_raw(r, 2, &f);
-        for (size_t i = 0; i < f.n; i += 9) uv_push(&g_par, f.v[i]);
+        for (size_t i = 0; i < f.n; i += (mc_thorough ? 13 : 9)) uv_push(&g_par, f.v[i]);
         uv_free(&f);
     }
-    g_kmax = mc_thorough ? 10 : 6;
-    g_diskdepth = mc_thorough ? 4 : 2;
-    mc_phase("disks and their children", ph_disk, NULL);
+    g_kmax = mc_thorough ? 9 : 6;
+    g_diskdepth = mc_thorough ? 3 : 2;
     mc_phase("uncompact sizes at every depth", ph_size, NULL);
     mc_phase("mixed-resolution compact sets x permutations x targets", ph_mixed, NULL);
+    mc_phase("disks and their children", ph_disk, NULL);
     return mc_finish();
 }
